@@ -431,10 +431,36 @@ def success_shape_cells(tier, seed):
     DER signatures of every legal shape (integers of 1..33 bytes, either sequence tag)."""
     return [{"m": k[0], "r": k[1], "rl": rl, "sl": sl, "first": first}
             for k in NAMES if k[1].startswith("sign") or "Hb" in k[1]
-            for (rl, sl) in SIG_SHAPES for first in (0x30, 0x31)]
+            for (rl, sl) in SIG_SHAPES for first in (0x30, 0x31)] + \
+        [{"m": "v5", "r": r, "nbytes": n} for r in ("state", "params") for n in range(0, 37)]
+
+
+def run_number_shape(c):
+    """Successful answers carrying a difficulty of every width the device has (0..36 bytes,
+    leading zeroes stripped by the device)."""
+    key = (c["m"], c["r"])
+    w, p = fresh(key)
+    value = (1 << (8 * c["nbytes"])) - 1 if c["nbytes"] else 0
+    if c["r"] == "state":
+        w.difficulty = value
+    else:
+        w.params = w.params[:32] + value.to_bytes(36, "big") + w.params[68:]
+    out, exc = mw.serve_line(mw.handler(p), json.dumps(REQS[key]).encode())
+    mw.check_sim(w)
+    rep_ = mw.parse_reply(out)
+    where = "%s/%s, the device holds a difficulty of %d bytes" % (c["m"], c["r"], c["nbytes"])
+    if exc is not None or rep_ is None:
+        raise Violation("no-usable-reply:%s" % REQS[key]["command"], "%s: %r %r" % (
+            where, out[:80], exc))
+    if rep_["errorcode"] != 0:
+        raise Violation("device-success-not-reported:%s" % REQS[key]["command"],
+                        "%s -> %r" % (where, rep_))
+    return Out(["success-shape", "number-shape", "req:%s/%s" % key], True)
 
 
 def run_success_shape(c):
+    if "nbytes" in c:
+        return run_number_shape(c)
     key = (c["m"], c["r"])
     w, p = fresh(key)
     r = bytes([0x11] + [0x21] * (c["rl"] - 1))[:c["rl"]]
